@@ -165,3 +165,150 @@ def replay_req_history(model, params, role):
         return "req_timeout_then_send\n", (lambda out: "SECOND SEND ACCEPTED" in out), \
             "REQ with RCVTIMEO=100 ms against a REP that never answers: send, recv (times out), send; expecting the second send to be accepted"
     return None
+
+
+# ------------------------------------------------------------------------------------------------
+# REP: alternation and reply routing over call histories (single caller)
+REPS = "socket::rep_socket::RepSocket"
+
+
+def rep_history(h):
+    """RepSocket::{recv, send} (coroutine MIR) on a hand-assembled socket with two peers (connections A, B), the real
+    AddressedIngressEngine and RCVTIMEO = 0. All histories of k operations from {a request from A arrives, a request
+    from B arrives, recv, send}. Successful operations alternate recv, send, ...; a refused call is InvalidState and
+    changes nothing; every reply goes to the connection whose request was received last, with that request's
+    routing prefix in front."""
+    from .d_c09 import Fut
+    from .d_c02 import _mk_msg, _tag
+    from .d_c07 import _frames
+    from ..models import some, none, ok, err, dur_ns, _deref, MapV
+    prog = h.it.prog
+    k = h.params.get("ops", 4)
+    AIE2 = "socket::patterns::addressed_ingress::AddressedIngressEngine"
+    PMS = "socket::patterns::ready_pipe_queue::PipeMessageSender"
+    eng = Ref(Cell(h.method(AIE2, "new", 4), "ingress"), ())
+    snd = [Ref(Cell(h.method(AIE2, "register_pipe", eng, p, 4, 1), f"s{p}"), ()) for p in range(2)]
+    uris = [string("uA"), string("uB")]
+    # core: is_running, options.rcvtimeo = 0, pipe_read_id_to_endpoint_uri, endpoints
+    cf = prog.struct_fields("socket::core::SocketCore")
+    core_vals = [Opaque(f) for f in cf]
+    csf = prog.struct_fields("socket::core::state::CoreState")
+    cs_vals = [Opaque(f) for f in csf]
+    of = prog.struct_fields("socket::options::SocketOptions")
+    o_vals = [Opaque(f) for f in of]
+    o_vals[of.index("rcvtimeo")] = some(dur_ns(0))
+    cs_vals[csf.index("options")] = Agg("socket::options::SocketOptions", o_vals)
+    cs_vals[csf.index("pipe_read_id_to_endpoint_uri")] = MapV("HashMap", [(p, clone_val(uris[p])) for p in range(2)])
+    ef = prog.struct_fields("socket::core::state::EndpointInfo")
+    def endpoint(p):
+        v = [Opaque(f) for f in ef]
+        v[ef.index("connection_iface")] = BoxV(Cell(Agg("{peer}", [p]), f"peer{p}"), (), "{peer}")
+        v[ef.index("endpoint_uri")] = clone_val(uris[p])
+        return Agg("socket::core::state::EndpointInfo", v)
+    cs_vals[csf.index("endpoints")] = MapV("HashMap", [(clone_val(uris[p]), endpoint(p)) for p in range(2)])
+    core_vals[cf.index("core_state")] = Agg("{lock}", [Agg("socket::core::state::CoreState", cs_vals)])
+    core_vals[cf.index("handle")] = 1
+    core = BoxV(Cell(Agg("socket::core::SocketCore", core_vals), "core"), ())
+    h.it.hooks["socket::core::SocketCore::is_running"] = lambda it2, a, d, f: True
+    variants = prog.enum_variants("socket::rep_socket::RepState")
+    state = Enum("socket::rep_socket::RepState", variants.index("ReadyToReceive"), "ReadyToReceive", [])
+    fields = prog.struct_fields(REPS)
+    ftypes = prog.struct_field_types(REPS) or {}
+    vals = {"core": core, "ingress_engine": eng.load(), "pending_pipe_senders": Agg("{lock}", [MapV("HashMap", [])]),
+            "state": Agg("{lock}", [state]), "pipe_read_id_to_endpoint_uri": Agg("{lock}", [MapV("HashMap", [])])}
+    for f in fields:
+        if f not in vals:
+            vals[f] = Agg("{amutex}", [False, UNIT]) if "Mutex" in str(ftypes.get(f, "")) else Opaque(f)
+    sock = Ref(Cell(Agg(REPS, [vals[f] for f in fields]), "rep"), ())
+    sent = []            # (peer, [tags of the wire frames])
+    DYN = "<dyn socket::connection_iface::ISocketConnection as socket::connection_iface::ISocketConnection>::"
+    def conn_send(it, args, dty, func):
+        p = _deref(args[0])
+        while isinstance(p, BoxV):
+            p = _deref(p.load())
+        sent.append((p.f[0], [_tag(m) for m in _frames(args[1])]))
+        return Agg("{future}", ["peer_send"])
+    h.it.hooks[DYN + "send_multipart"] = conn_send
+    def extern(it, plain, args, dty, func):
+        if plain.endswith("Future>::poll"):
+            fut = _deref(args[0])
+            while isinstance(fut, BoxV):
+                fut = _deref(fut.load())
+            if isinstance(fut, Agg) and fut.ty == "{future}":
+                return Enum("std::task::Poll", 0, "Ready", [ok(UNIT)])
+            return NotImplemented
+        if plain.endswith("IntoFuture>::into_future") or plain.startswith("std::pin::Pin::"):
+            return args[0]
+        return NotImplemented
+    h.it.extern = extern
+    h.panic_role = "c10.rep-history"
+    def state_name():
+        return sock.load().f[fields.index("state")].f[0].vname
+    queued = []          # (peer, envelope tag, request tag) waiting in the ingress engine, arrival order
+    pending = None       # request received and not yet answered
+    nxt = 0x40
+    last_ok = None
+    from_bits = prog.body(h.it.resolve_fn("message::flags::_::<impl message::flags::MsgFlags>::from_bits_retain", ""))
+    for i in range(k):
+        op = h.choose(4, f"op{i}")          # 0/1 a request from A/B arrives, 2 recv, 3 send
+        if op in (0, 1):
+            p = op
+            fb = Ref(Cell(h.method("message::FrameBatch", "new"), "fb"), ())
+            env = 0xE0 + p                   # one routing-prefix frame in front of the delimiter (as a ROUTER hop would add)
+            h.method("message::FrameBatch", "push", fb, _mk_msg(h, env, True))
+            d0 = Ref(Cell(h.method("message::msg::Msg", "new"), "delim"), ())
+            h.method("message::msg::Msg", "set_flags", d0, h.it.run_body(from_bits, [1]))
+            h.method("message::FrameBatch", "push", fb, d0.load())
+            h.method("message::FrameBatch", "push", fb, _mk_msg(h, nxt, False))
+            h.check(h.method(PMS, "try_send_sync", snd[p], fb.load()).idx == 0, "c10.rep-history.setup-enqueue")
+            queued.append((p, env, nxt))
+            nxt += 1
+            continue
+        before = state_name()
+        if op == 2:
+            f = Fut(h, REPS, "recv", [sock], trait="ISocket")
+            r = f.poll()
+            h.check(r is not None, "c10.rep-history.nonblocking-recv-parked")
+            if r is None:
+                return
+            if pending is not None:
+                h.check(r.idx == 1 and r.f[0].vname == "InvalidState", "c10.rep-history.second-recv-without-send-not-refused", repr(r)[:80])
+                h.check(state_name() == before, "c10.rep-history.refused-call-changed-the-state")
+            elif not queued:
+                h.check(r.idx == 1, "c10.rep-history.recv-succeeded-without-a-request")
+                h.check(state_name() == "ReadyToReceive", "c10.rep-history.failed-recv-changed-the-state", state_name())
+            else:
+                h.check(r.idx == 0, "c10.rep-history.request-not-returned", repr(r)[:80])
+                if r.idx == 0:
+                    # requests of one peer come in order; across peers the ready list decides
+                    tag = _tag(r.f[0])
+                    cand = [q for q in queued if q[2] == tag]
+                    h.check(bool(cand) and all(q[2] >= tag for q in queued if q[0] == cand[0][0]), "c10.rep-history.wrong-request", f"{tag} vs {queued}")
+                    if cand:
+                        queued.remove(cand[0])
+                        pending = cand[0]
+                    h.check(last_ok != "recv", "c10.rep-history.two-recvs-in-a-row")
+                    last_ok = "recv"
+        else:
+            n_before = len(sent)
+            f = Fut(h, REPS, "send", [sock, _mk_msg(h, 0x99, False)], trait="ISocket")
+            r = f.poll()
+            h.check(r is not None, "c10.rep-history.send-parked")
+            if r is None:
+                return
+            if pending is None:
+                h.check(r.idx == 1 and r.f[0].vname == "InvalidState", "c10.rep-history.send-without-request-not-refused", repr(r)[:80])
+                h.check(state_name() == before and len(sent) == n_before, "c10.rep-history.refused-call-changed-the-state")
+            else:
+                h.check(r.idx == 0 and len(sent) == n_before + 1, "c10.rep-history.valid-reply-refused", repr(r)[:80])
+                if len(sent) == n_before + 1:
+                    peer, frames = sent[-1]
+                    h.check(peer == pending[0], "c10.rep-history.reply-sent-to-another-peer",
+                            f"the request received last came from connection {pending[0]}; the reply went to connection {peer}")
+                    h.check(frames == [pending[1], None, 0x99], "c10.rep-history.reply-envelope-wrong",
+                            f"wire frames {frames}, expected routing prefix {hex(pending[1])}, empty delimiter, payload")
+                    h.cover("c10.rep-history.request-reply-cycle")
+                pending = None
+                h.check(last_ok == "recv", "c10.rep-history.send-without-preceding-recv")
+                last_ok = "send"
+        h.check(state_name() == ("ReceivedRequest" if pending is not None else "ReadyToReceive"), "c10.rep-history.state-differs-from-reference", f"{state_name()} pending={pending}")
